@@ -565,6 +565,9 @@ func planC01(prop string, seed uint64, tier string, idx int) *Plan {
 
 // C02: acknowledged content reads back identically across re-pushes, deletes, collections and restarts.
 func planC02(prop string, seed uint64, tier string, idx int) *Plan {
+	if idx%8 == 7 {
+		return concSlice(prop, seed, tier, idx)
+	}
 	g := newGen(seed, tier)
 	g.p.Profile = "read-back"
 	g.repos(g.r.between(1, 2))
@@ -653,6 +656,9 @@ func planC02(prop string, seed uint64, tier string, idx int) *Plan {
 
 // C03: tags as a last-writer-wins map, listing and paging.
 func planC03(prop string, seed uint64, tier string, idx int) *Plan {
+	if idx%8 == 7 {
+		return concSlice(prop, seed, tier, idx)
+	}
 	g := newGen(seed, tier)
 	g.p.Profile = "tags"
 	g.repos(g.r.between(1, 2))
@@ -834,6 +840,9 @@ func planC04(prop string, seed uint64, tier string, idx int) *Plan {
 
 // C07: referrers listings.
 func planC07(prop string, seed uint64, tier string, idx int) *Plan {
+	if idx%8 == 7 {
+		return concSlice(prop, seed, tier, idx)
+	}
 	g := newGen(seed, tier)
 	g.p.Profile = "referrers"
 	g.repos(g.r.between(1, 2))
